@@ -50,6 +50,7 @@ safe Version [C03]
 module registry
 props C04
 use common core
+use container pending
 dialect neovm
 
 // C04: the container registry. Key layout: x<id> blob, o<owner><id> owner index, d<id> tombstone, m<id> meta flag,
@@ -376,6 +377,7 @@ func AddNextEpochNodes(cID, placementVector, publicKeys)
 // the REP numbers r<cid><i> become exactly replicas[i], nothing else changes, one NodesUpdate(cid) is emitted.
 // Input assumption: the container id does not start with the ten bytes "nsHasAlias" (otherwise n<cid> is a prefix of alias keys).
 func CommitContainerListUpdate(cID, replicas)
+  requires [Pre] !prefix("nsHasAlias", cID)
   ensures [C14] W(alphabet()) && len(cID) == 32
   ensures [C14] forall k Bytes {store.opt(k)} :: prefix("u" ++ cID, k) ==> !store.has(k)
   ensures [C14] forall k Bytes {store.opt(k)} :: prefix("n" ++ cID, k) ==> store.opt(k) == old(store).opt("u" ++ k[1:])
